@@ -177,9 +177,6 @@ theorem editTrace_keeps {a a' : Msg} {es : List Spec.Edit} {rcs : List Nat} (h :
   | refused _ ih =>
     intro h he
     exact ih h (fun x hx => he x (List.mem_cons_of_mem _ hx))
-  | leftover hd _ ih =>
-    intro h he
-    exact ih (allLen_hop h (hopDomain_code hd)) (fun x hx => he x (List.mem_cons_of_mem _ hx))
 
 theorem allLen_of_optsOk {code prev : Nat} {os : List (Nat × Bytes)} (h : Spec.optsOk code prev os = true) : AllLenOk code os :=
   fun o ho => ((optsOk_sorted code prev os h).2 o ho).2.2.2
